@@ -35,8 +35,9 @@ impl AnonymousIngressEngine {
   }
 
   pub fn deregister_pipe(&self, pipe_id: usize) {
+    // The cache holds frames of a message the application has already started to read;
+    // they are no longer tied to any pipe, so a detaching peer must not discard them.
     self.queue.deregister_pipe(pipe_id);
-    *self.local_cache.lock() = None;
   }
 
   pub fn close(&self) {
